@@ -241,6 +241,19 @@ class CallGraph:
                 out.extend(self._ctor(t))
         return out
 
+    def constructed_class(self, f: FuncInfo, name: str) -> Optional[ClassInfo]:
+        """Class K when every binding of local `name` in f is `K(...)` for one repository class K."""
+        bs = self.bindings(f).get(name) or []
+        ks = set()
+        for b in bs:
+            if not (isinstance(b, ast.Call) and isinstance(b.func, ast.Name)):
+                return None
+            r = resolve_name(self.repo, f.module, b.func.id)
+            if len(r) != 1 or not isinstance(r[0], ClassInfo):
+                return None
+            ks.add(r[0])
+        return next(iter(ks)) if len(ks) == 1 else None
+
     def _by_name(self, f, recv, name, node) -> Edge:
         if self.builtin_expr(f, recv):
             self.stats["builtin-receiver"] += 1
@@ -317,6 +330,23 @@ class CallGraph:
                     if ts:
                         self.stats["exact"] += 1
                         return self._mk(c, "class", ts)
+            # method call on a freshly constructed repository object: `K(...).m()` or a local that only ever holds one
+            k = None
+            if isinstance(base, ast.Name) and local.get(base.id):
+                k = self.constructed_class(f, base.id)
+            elif isinstance(base, ast.Call) and isinstance(base.func, ast.Name) and not local.get(base.func.id):
+                r = resolve_name(repo, mod, base.func.id)
+                k = r[0] if len(r) == 1 and isinstance(r[0], ClassInfo) else None
+            if True:
+                if k is not None:
+                    ts = self._cha(k, fn.attr)
+                    if ts:
+                        self.stats["exact"] += 1
+                        return self._mk(c, "object", ts)
+                    # not defined in the repository part of the hierarchy: inherited from an external base
+                    if any(repo.resolve_class(b, kk.module) is None for kk in repo.mro(k) for b in kk.base_names):
+                        self.stats["external"] += 1
+                        return Edge(c, "external", label=f"{k.name}.{fn.attr}")
             # dotted module path such as a.b.func
             bp = ap(base)
             if bp and isinstance(base, ast.Attribute):
@@ -645,7 +675,7 @@ class GuardProver:
             usable.append((ex, pol))
         if any(st.path == flag for st in stores(f.node, into_defs=True)):
             return False, f"parameter {flag!r} is reassigned inside the function"
-        ok = entails_false(usable, norm(ast.Name(id=flag, ctx=ast.Load())))
+        ok = entails_false(usable, flag)
         return ok, "" if ok else ("dominating conditions " +
                                   (", ".join(f"{norm(e)}={'T' if p else 'F'}" for e, p in usable) or "(none)") +
                                   f" do not imply `not {flag}`")
@@ -734,6 +764,35 @@ def _param_map(g: FuncInfo, c: ast.Call, bound: bool) -> Optional[Dict[str, ast.
     return mapping
 
 
+def _object_flag(repo, cg, f: FuncInfo, local_name: str, flag: str) -> Optional[str]:
+    """`x = K(..., flag, ...)` and K.__init__ keeps that argument as `self.A` (written nowhere else in K's hierarchy):
+    the flag lives on as `self.A` inside K's methods."""
+    k = cg.constructed_class(f, local_name)
+    if k is None:
+        return None
+    init = repo.lookup_method(k, "__init__")
+    ctors = [b for b in cg.bindings(f).get(local_name, []) if isinstance(b, ast.Call)]
+    if init is None or len(ctors) != 1:
+        return None
+    m = _param_map(init, ctors[0], bound=True)
+    if not m:
+        return None
+    hits = [p_ for p_, a in m.items() if isinstance(a, ast.Name) and a.id == flag]
+    if len(hits) != 1:
+        return None
+    attrs = [st.path for st in stores(init.node, into_defs=False) if st.kind == "assign" and st.path.startswith("self.")
+             and isinstance(st.value, ast.Name) and st.value.id == hits[0]]
+    if len(attrs) != 1 or any(st.path == hits[0] for st in stores(init.node)):
+        return None
+    attr = attrs[0].split(".", 1)[1]
+    for c in [k] + repo.subclasses(k, strict=True) + repo.mro(k)[1:]:
+        for meth in c.methods.values():
+            for st in stores(meth.node, into_defs=True):
+                if st.path.split(".")[-1].replace("[]", "") == attr and "." in st.path and not (meth is init and st.path == attrs[0]):
+                    return None
+    return attrs[0]
+
+
 def _flag_param_in_callee(g: FuncInfo, c, flag: str, edge_kind: str) -> Optional[str]:
     if not isinstance(c, ast.Call):
         return None
@@ -789,7 +848,15 @@ def r1(ctx):
                 discharged += 1
             for t in e.targets:
                 t = _top(t)
-                tflag = _flag_param_in_callee(t, e.call, flag, e.kind) if flag is not None and not guarded else None
+                tflag = None
+                if flag is not None and not guarded:
+                    if e.kind == "object" and isinstance(e.call, ast.Call) and isinstance(e.call.func, ast.Attribute) \
+                            and isinstance(e.call.func.value, ast.Name):
+                        tflag = _object_flag(repo, cg, f, e.call.func.value.id, flag)
+                    elif e.kind in ("self", "super") and flag.startswith("self."):
+                        tflag = flag                   # same object, same attribute
+                    if tflag is None and not flag.startswith("self."):
+                        tflag = _flag_param_in_callee(t, e.call, flag, e.kind)
                 key = (t.full, tflag, guarded)
                 if key in visited or (t.full, None, False) in visited or (guarded and (t.full, tflag, False) in visited):
                     continue
@@ -831,6 +898,34 @@ def r1(ctx):
         ctx.note(n)
     ctx.assume("attribute loads (properties, __getattr__, descriptors), operators other than subscripting/`in`/"
                "iteration/with, and __repr__/__str__ conversions are not call edges of the C11.R1 call graph")
+
+
+def _parser_fns(repo, cg, pf: FuncInfo) -> List[FuncInfo]:
+    """from_human_string, its same-class helpers, and the methods of collaborator objects it constructs and
+    delegates to (`p = _Parser(...); p.parse(text)`), with their helpers."""
+    out = list(class_methods_reachable(repo, pf))
+    for g in list(out):
+        for c in calls(g.node, into_defs=True):
+            if isinstance(c.func, ast.Attribute) and isinstance(c.func.value, ast.Name) and cg.bindings(g).get(c.func.value.id):
+                k = cg.constructed_class(g, c.func.value.id)
+                m = repo.lookup_method(k, c.func.attr) if k is not None else None
+                if m is not None:
+                    for h in class_methods_reachable(repo, m, depth=5):
+                        if h not in out:
+                            out.append(h)
+    return out
+
+
+def _attr_or_local_values(repo, cg, g: FuncInfo, base: str, fns) -> List[ast.AST]:
+    """Values bound to a local name, or to `self.<attr>` anywhere in the given functions."""
+    if "." not in base:
+        return [b for b in cg.bindings(g).get(base, []) if b is not None]
+    vals = []
+    for h in fns:
+        for st in stores(h.node, into_defs=True):
+            if st.path == base and st.kind == "assign" and st.value is not None:
+                vals.append((h, st.value))
+    return vals
 
 
 # =========================================================================== R2 helpers
@@ -1005,7 +1100,8 @@ def r2(ctx):
     ml = repo.fn_opt("HumanMessageSerializer._multi_line_pformat") or repo.fn_opt("_multi_line_pformat", FMT)
     ctx.require(ml is not None, "anchor _multi_line_pformat (method of HumanMessageSerializer or function of "
                                 "message_formatting.py) vanished")
-    pfns = class_methods_reachable(repo, pf)
+    cg = CallGraph(repo)
+    pfns = _parser_fns(repo, cg, pf)
     ev = ConstEval(repo, pf.module)
 
     # ---- parser constants
@@ -1070,19 +1166,19 @@ def r2(ctx):
         return True
 
     # parser call sites that matter
-    cg = CallGraph(repo)
     # evaluating sites of the parser itself: direct sinks, and calls of same-class helpers that (transitively)
     # contain one (the helper's own guards are R1's business; here only the operator dispatch matters)
-    evaluating = {g.full for g in pfns if g is not pf and any(e.sink for e in cg.edges(g))}
+    # (the operator dispatch lives in the function that classifies the operator: eg)
+    evaluating = {g.full for g in pfns if g is not eg and any(e.sink for e in cg.edges(g))}
     grew = True
     while grew:
         grew = False
         for g in pfns:
-            if g is not pf and g.full not in evaluating and any(
+            if g is not eg and g.full not in evaluating and any(
                     t.full in evaluating for e in cg.edges(g) if e.kind in ("self", "class", "exact") for t in e.targets):
                 evaluating.add(g.full)
                 grew = True
-    sink_calls = [(pf, e.call) for e in cg.edges(pf)
+    sink_calls = [(eg, e.call) for e in cg.edges(eg)
                   if e.sink or (e.kind in ("self", "class", "exact") and isinstance(e.call, ast.Call)
                                 and any(t.full in evaluating for t in e.targets))]
     # the packed branch is where the subfield serializer is looked up (its serialize() may run there or be deferred
@@ -1103,6 +1199,7 @@ def r2(ctx):
                         and "=" in str(vals[i + 1].value) and i + 2 < len(vals) and isinstance(vals[i + 2], ast.FormattedValue):
                     var_lines.append((g, js, i))
     ctx.floor("C11.R2", "`name operator value` line shapes emitted by the formatter", len(var_lines), 2)
+    line_kinds = []
     for g, js, i in var_lines:
         vals = js.values
         op = str(vals[i + 1].value).strip()
@@ -1114,6 +1211,7 @@ def r2(ctx):
             for b in cg.bindings(g).get(nme, []):
                 if b is not None and any(call_attr(c) == "deserialize" for c in calls(b)):
                     derived = True
+        line_kinds.append((g, js, i, derived))
         # prefixes: every constant value the placeholders before the name can take
         prefix_opts = [""]
         for v in vals[:i]:
@@ -1149,6 +1247,37 @@ def r2(ctx):
                                     else " is taken literally (no subfield serializer)"),
                    ser_hit == derived, where,
                    f"operator {op!r} classified {classify(op)}; value printed {'by' if derived else 'without'} a subfield serializer")
+
+    # ---- the raw line may be commented out only on paths that have emitted the pretty line for the same variable
+    for g in {x[0] for x in line_kinds}:
+        pretty = [enclosing_stmt(js) for g2, js, i, d in line_kinds if g2 is g and d]
+        raw = [(enclosing_stmt(js), js, i) for g2, js, i, d in line_kinds if g2 is g and not d]
+        if not pretty or not raw:
+            continue
+        cfg = CFG(g.node)
+        p_nodes = {n for st_ in pretty for n in cfg.nodes_for(st_)}
+        for f_stmt, js, i in raw:
+            f_nodes = set(cfg.nodes_for(f_stmt))
+            for v in js.values[:i]:
+                if not (isinstance(v, ast.FormattedValue) and isinstance(v.value, ast.Name)):
+                    continue
+                pname = v.value.id
+                defs = [st_ for st_ in stores(g.node, into_defs=False) if st_.path == pname and st_.kind == "assign"]
+                def_nodes = {n for st_ in defs for n in cfg.nodes_for(st_.node)}
+                no_pretty_yet = cfg.reachable([cfg.entry], avoid=lambda n: n in p_nodes)
+                for st_ in defs:
+                    if not (isinstance(st_.value, ast.Constant) and isinstance(st_.value.value, str) and st_.value.value.strip()
+                            and comment_re.apply((st_.value.value + "Name = 1").strip())):
+                        continue
+                    a_nodes = set(cfg.nodes_for(st_.node))
+                    bad = False
+                    if a_nodes & no_pretty_yet:
+                        reach = cfg.reachable(a_nodes, avoid=lambda n: n in p_nodes or (n in def_nodes and n not in a_nodes))
+                        bad = bool(reach & f_nodes)
+                    ctx.ob("C11.R2", f"{g.qual}: `{norm(st_.node)}` comments the raw line out only after the pretty line was written",
+                           not bad, ctx.w(g, st_.node),
+                           "a path (e.g. the subfield pretty-printer raising into the catch-all handler) reaches the raw line with "
+                           "the comment prefix set and no `=|` line written: the variable disappears from the parsed message")
 
     # ---- formatter: comment lines (text following a newline inside one emitted piece) and inline originals
     n_comment = 0
@@ -1205,95 +1334,113 @@ def r2(ctx):
                 cut = -v
     ctx.ob("C11.R2", "parser removes exactly the continuation marker it tests for", cut == len(cont), ctx.w(pf, whiles[0]),
            f"tests endswith({cont!r}) but cuts {cut} characters")
-    # line assembly: an f-string or `+` chain made of constant-valued parts around exactly one variable part (the line)
-    mlbind = cg.bindings(ml)
+    def _assemblies(ml):
+        # line assembly: an f-string or `+` chain made of constant-valued parts around exactly one variable part (the line)
+        mlbind = cg.bindings(ml)
 
-    def const_values(e, depth=0) -> Optional[Set[str]]:
-        if depth > 4:
-            return None
-        if isinstance(e, ast.Constant) and isinstance(e.value, str):
-            return {e.value}
-        if isinstance(e, ast.IfExp):
-            a, b = const_values(e.body, depth + 1), const_values(e.orelse, depth + 1)
-            return None if a is None or b is None else a | b
-        if isinstance(e, ast.BinOp) and isinstance(e.op, ast.Add):
-            a, b = const_values(e.left, depth + 1), const_values(e.right, depth + 1)
-            return None if a is None or b is None else {x + y for x in a for y in b}
-        if isinstance(e, ast.Name):
-            bs = mlbind.get(e.id, [])
-            if not bs:
-                mv = repo.module_assign(ml.module, e.id)
-                return const_values(mv, depth + 1) if mv is not None else None
-            if any(b is None for b in bs):
+        def const_values(e, depth=0) -> Optional[Set[str]]:
+            if depth > 4:
                 return None
-            out: Set[str] = set()
-            for b in bs:
-                v = const_values(b, depth + 1)
-                if v is None:
+            if isinstance(e, ast.Constant) and isinstance(e.value, str):
+                return {e.value}
+            if isinstance(e, ast.IfExp):
+                a, b = const_values(e.body, depth + 1), const_values(e.orelse, depth + 1)
+                return None if a is None or b is None else a | b
+            if isinstance(e, ast.BinOp) and isinstance(e.op, ast.Add):
+                a, b = const_values(e.left, depth + 1), const_values(e.right, depth + 1)
+                return None if a is None or b is None else {x + y for x in a for y in b}
+            if isinstance(e, ast.Name):
+                bs = mlbind.get(e.id, [])
+                if not bs:
+                    mv = repo.module_assign(ml.module, e.id)
+                    return const_values(mv, depth + 1) if mv is not None else None
+                if any(b is None for b in bs):
                     return None
-                out |= v
-            return out
-        return None
+                out: Set[str] = set()
+                for b in bs:
+                    v = const_values(b, depth + 1)
+                    if v is None:
+                        return None
+                    out |= v
+                return out
+            return None
 
-    def parts_of(e) -> Optional[List[ast.AST]]:
-        if isinstance(e, ast.JoinedStr):
-            return [v.value if isinstance(v, ast.FormattedValue) else v for v in e.values]
-        if isinstance(e, ast.BinOp) and isinstance(e.op, ast.Add):
-            out, cur = [], e
-            while isinstance(cur, ast.BinOp) and isinstance(cur.op, ast.Add):
-                out.insert(0, cur.right)
-                cur = cur.left
-            out.insert(0, cur)
-            return out
-        return None
-    assemblies = []
-    for n in walk(ml.node, into_defs=True):
-        if isinstance(n, ast.BinOp) and isinstance(parent(n), ast.BinOp) and isinstance(parent(n).op, ast.Add) \
-                and parent(n).left is n:
-            continue
-        if isinstance(n, ast.AugAssign):
-            continue
-        ps = parts_of(n)
-        if not ps or len(ps) < 2:
-            continue
-        vals = [const_values(x) for x in ps]
-        var_idx = [i for i, v in enumerate(vals) if v is None]
-        if len(var_idx) == 1 and any(v is not None and any("\n" in c for c in v) for v in vals):
-            assemblies.append((n, ps, vals, var_idx[0]))
-    import itertools as _it
-    shaped = []          # (node, prefixes, suffixes)
-    for n, ps, vals, vi in assemblies:
-        pres = {"".join(c) for c in _it.product(*vals[:vi])} if vi else {""}
-        sufs = {"".join(c) for c in _it.product(*vals[vi + 1:])} if vi + 1 < len(ps) else {""}
-        shaped.append((n, pres, sufs))
-    # `SEP.join(<line or INDENT + line> for ...)`: SEP follows every line but the last
-    for n in walk(ml.node, into_defs=True):
-        if isinstance(n, ast.Call) and isinstance(n.func, ast.Attribute) and n.func.attr == "join" and len(n.args) == 1:
-            seps = const_values(n.func.value)
-            if not seps or not any("\n" in c for c in seps):
+        def parts_of(e) -> Optional[List[ast.AST]]:
+            if isinstance(e, ast.JoinedStr):
+                return [v.value if isinstance(v, ast.FormattedValue) else v for v in e.values]
+            if isinstance(e, ast.BinOp) and isinstance(e.op, ast.Add):
+                out, cur = [], e
+                while isinstance(cur, ast.BinOp) and isinstance(cur.op, ast.Add):
+                    out.insert(0, cur.right)
+                    cur = cur.left
+                out.insert(0, cur)
+                return out
+            return None
+        assemblies = []
+        for n in walk(ml.node, into_defs=True):
+            if isinstance(n, ast.BinOp) and isinstance(parent(n), ast.BinOp) and isinstance(parent(n).op, ast.Add) \
+                    and parent(n).left is n:
                 continue
-            # the separator may carry the next line's indent after its newline: split it at the last newline
-            sep_sufs = {c[:c.rindex("\n") + 1] if "\n" in c else c for c in seps}
-            sep_pres = {c[c.rindex("\n") + 1:] if "\n" in c else "" for c in seps}
-            pres, sufs, okshape = set(sep_pres) | {""}, set(sep_sufs), True
-            if isinstance(n.args[0], (ast.GeneratorExp, ast.ListComp)):
-                arms = [n.args[0].elt]
-                while any(isinstance(a, ast.IfExp) for a in arms):
-                    arms = [x for a in arms for x in ([a.body, a.orelse] if isinstance(a, ast.IfExp) else [a])]
-                for a in arms:
-                    ps = parts_of(a) or [a]
-                    vals = [const_values(x) for x in ps]
-                    var_idx = [i for i, v in enumerate(vals) if v is None]
-                    if len(var_idx) != 1:
-                        okshape = False
-                        break
-                    vi = var_idx[0]
-                    arm_pres = {"".join(c) for c in _it.product(*vals[:vi])} if vi else {""}
-                    pres |= {x + y for x in sep_pres | {""} for y in arm_pres}
-                    if vi + 1 < len(ps):
-                        sufs = {x + y for x in ({"".join(c) for c in _it.product(*vals[vi + 1:])}) for y in sep_sufs}
-            if okshape:
-                shaped.append((n, pres, sufs))
+            if isinstance(n, ast.AugAssign):
+                continue
+            ps = parts_of(n)
+            if not ps or len(ps) < 2:
+                continue
+            vals = [const_values(x) for x in ps]
+            var_idx = [i for i, v in enumerate(vals) if v is None]
+            if len(var_idx) == 1 and any(v is not None and any("\n" in c for c in v) for v in vals):
+                assemblies.append((n, ps, vals, var_idx[0]))
+        import itertools as _it
+        shaped = []          # (node, prefixes, suffixes)
+        for n, ps, vals, vi in assemblies:
+            pres = {"".join(c) for c in _it.product(*vals[:vi])} if vi else {""}
+            sufs = {"".join(c) for c in _it.product(*vals[vi + 1:])} if vi + 1 < len(ps) else {""}
+            shaped.append((n, pres, sufs))
+        # `SEP.join(<line or INDENT + line> for ...)`: SEP follows every line but the last
+        for n in walk(ml.node, into_defs=True):
+            if isinstance(n, ast.Call) and isinstance(n.func, ast.Attribute) and n.func.attr == "join" and len(n.args) == 1:
+                seps = const_values(n.func.value)
+                if not seps or not any("\n" in c for c in seps):
+                    continue
+                # the separator may carry the next line's indent after its newline: split it at the last newline
+                sep_sufs = {c[:c.rindex("\n") + 1] if "\n" in c else c for c in seps}
+                sep_pres = {c[c.rindex("\n") + 1:] if "\n" in c else "" for c in seps}
+                pres, sufs, okshape = set(sep_pres) | {""}, set(sep_sufs), True
+                if isinstance(n.args[0], (ast.GeneratorExp, ast.ListComp)):
+                    arms = [n.args[0].elt]
+                    while any(isinstance(a, ast.IfExp) for a in arms):
+                        arms = [x for a in arms for x in ([a.body, a.orelse] if isinstance(a, ast.IfExp) else [a])]
+                    for a in arms:
+                        ps = parts_of(a) or [a]
+                        vals = [const_values(x) for x in ps]
+                        var_idx = [i for i, v in enumerate(vals) if v is None]
+                        if len(var_idx) != 1:
+                            okshape = False
+                            break
+                        vi = var_idx[0]
+                        arm_pres = {"".join(c) for c in _it.product(*vals[:vi])} if vi else {""}
+                        pres |= {x + y for x in sep_pres | {""} for y in arm_pres}
+                        if vi + 1 < len(ps):
+                            sufs = {x + y for x in ({"".join(c) for c in _it.product(*vals[vi + 1:])}) for y in sep_sufs}
+                if okshape:
+                    shaped.append((n, pres, sufs))
+        return shaped
+
+    # the printer may be a forwarding stub: follow `return <obj>.m(val)` / `return helper(val)` to where the lines are joined
+    shaped = _assemblies(ml)
+    for _ in range(3):
+        if shaped:
+            break
+        rets = [n.value for n in walk(ml.node) if isinstance(n, ast.Return) and n.value is not None]
+        nxt = None
+        if len(rets) == 1 and isinstance(rets[0], ast.Call):
+            e_ = cg._resolve_call(ml, rets[0])
+            if e_.kind in ("exact", "object", "self", "class") and len(e_.targets) >= 1:
+                nxt = _top(e_.targets[0])
+        if nxt is None or nxt is ml:
+            break
+        ml = nxt
+        shaped = _assemblies(ml)
     ctx.floor("C11.R2", "line assembly expressions in _multi_line_pformat", len(shaped), 1)
     for n, pres, sufs in shaped:
         for suf in sorted(sufs):
@@ -1308,12 +1455,29 @@ def r2(ctx):
                    ctx.w(ml, n), "the parser strips lines and concatenates them: a non-blank prefix becomes part of the value")
 
     # ---- block header and flags
+    # functions that build the Block (directly or through parser-internal calls)
+    blk_builders = {g.name for g in pfns if any(call_attr(x) == "Block" for x in calls(g.node, into_defs=True))}
+    grew = True
+    while grew:
+        grew = False
+        for g in pfns:
+            if g.name not in blk_builders and any(call_attr(x) in blk_builders and isinstance(x.func, ast.Attribute)
+                                                   for x in calls(g.node, into_defs=True)):
+                blk_builders.add(g.name)
+                grew = True
+
+    def _starts_block(x) -> bool:
+        return call_attr(x) == "Block" or (isinstance(x.func, ast.Attribute) and call_attr(x) in blk_builders
+                                           and ap(x.func.value) in ("self", "cls"))
     sw = [c for g in pfns for c in find_calls(g.node, "startswith") if _const_str_args(c)
-          and isinstance(enclosing_stmt(c), ast.If) and any(call_attr(x) == "Block" for x in calls(enclosing_stmt(c)))]
+          and isinstance(enclosing_stmt(c), ast.If) and any(x is c for x in ast.walk(enclosing_stmt(c).test))
+          and any(_starts_block(x) for b in enclosing_stmt(c).body for x in calls(b))]
     ctx.require(len(sw) == 1, "C11.R2: parser's block-header test (`line.startswith(const)` guarding Block(...)) not found")
     blk_const = _const_str_args(sw[0])[0]
     blk_if = enclosing_stmt(sw[0])
-    name_pats = [u for g in pfns for u in _regex_uses(repo, g) if any(x is u.call for b in blk_if.body for x in ast.walk(b))]
+    called = {call_attr(x) for b in blk_if.body for x in calls(b) if _starts_block(x) and call_attr(x) != "Block"}
+    name_pats = [u for g in pfns for u in _regex_uses(repo, g)
+                 if any(x is u.call for b in blk_if.body for x in ast.walk(b)) or (g.name in called and not _decides_branch(g, u.call))]
     ctx.require(len(name_pats) == 1, "C11.R2: block-name pattern in the parser's block-header branch not found")
     blk_re = name_pats[0]
     hdrs = []
@@ -1406,19 +1570,36 @@ def _queue_origin(fn_node, node, callers=()) -> Dict[str, ast.AST]:
     position with differing expressions is left out).  When L is a parameter of a helper, `callers` =
     [(caller function node, call)] lets the list be traced to the caller's list."""
     out: Dict[str, ast.AST] = {}
-    for loop in [a for a in ancestors(node) if isinstance(a, ast.For)]:
-        if not (isinstance(loop.target, ast.Tuple) and isinstance(loop.iter, ast.Name)):
+    draws = [(a.target, a.iter) for a in ancestors(node) if isinstance(a, ast.For)]
+    # `a, b, c = L.pop(...)` / `L.popleft()` earlier in the function draws one entry as well
+    for st_ in walk(fn_node, into_defs=True):
+        if isinstance(st_, ast.Assign) and len(st_.targets) == 1 and isinstance(st_.targets[0], ast.Tuple) and \
+                isinstance(st_.value, ast.Call) and isinstance(st_.value.func, ast.Attribute) and \
+                st_.value.func.attr in ("pop", "popleft") and any(isinstance(x, ast.Name) and x.id in
+                                                                  {t.id for t in st_.targets[0].elts if isinstance(t, ast.Name)}
+                                                                  for x in ast.walk(node)):
+            draws.append((st_.targets[0], st_.value.func.value))
+    for target, it in draws:
+        lpath = ap(it)
+        loop = type("L", (), {"target": target, "iter": it})
+        if not (isinstance(loop.target, ast.Tuple) and lpath and (isinstance(loop.iter, ast.Name) or
+                                                                  (lpath.startswith("self.") and lpath.count(".") == 1))):
             continue
         n = len(loop.target.elts)
-        scopes = [(fn_node, loop.iter.id)]
+        scopes = [(fn_node, lpath)]
+        if lpath.startswith("self."):
+            # a work list kept on the object: filled by any method of it
+            scopes.extend((cn, lpath) for cn, _ in callers)
         params = [a.arg for a in getattr(getattr(fn_node, "args", None), "args", [])]
-        if loop.iter.id in params:
+        if lpath in params:
             for caller_node, call in callers:
-                idx = params.index(loop.iter.id)
+                if call is None:
+                    continue
+                idx = params.index(lpath)
                 if params and params[0] in ("self", "cls") and isinstance(call.func, ast.Attribute):
                     idx -= 1
                 arg = call.args[idx] if 0 <= idx < len(call.args) else next(
-                    (k.value for k in call.keywords if k.arg == loop.iter.id), None)
+                    (k.value for k in call.keywords if k.arg == lpath), None)
                 if isinstance(arg, ast.Name):
                     scopes.append((caller_node, arg.id))
         queued = []
@@ -1497,7 +1678,8 @@ def r3(ctx):
         return bool(r) and isinstance(r[0], tuple) and r[0][1] == "hippolyzer.lib.base.serialization"
 
     # ---- parser
-    p_look = _registry_lookups(repo, class_methods_reachable(repo, pf))
+    parser_fns = _parser_fns(repo, cg, pf)
+    p_look = _registry_lookups(repo, parser_fns)
     ctx.floor("C11.R3", "registry lookups in the parser", len(p_look), 1)
     for g, node, key in p_look:
         where = ctx.w(g, node)
@@ -1509,21 +1691,26 @@ def r3(ctx):
             continue
         e0, e1, e2 = kt.elts
         p0, p1, p2 = ap(e0) or "", ap(e1) or "", ap(e2) or ""
-        b0 = cg.bindings(g).get(p0.split(".")[0], [])
-        ok0 = p0.endswith(".name") and p0.count(".") == 1 and any(
-            _constructs(repo, cg, g, b, "Message") for b in b0 if b is not None)
+
+        def _built(base: str, cls_name: str) -> bool:
+            # a local of g, or an attribute of the parser object bound in any parser function
+            if not base or not (base.count(".") == 0 or (base.startswith("self.") and base.count(".") == 1)):
+                return False
+            vals = _attr_or_local_values(repo, cg, g, base, parser_fns)
+            return any(_constructs(repo, cg, (v[0] if isinstance(v, tuple) else g), (v[1] if isinstance(v, tuple) else v), cls_name)
+                       for v in vals)
+        ok0 = p0.endswith(".name") and _built(p0[:-5], "Message")
         ctx.ob("C11.R3", inst + ": element 0 is the name of the message being built", ok0, where, f"got {p0}")
-        blk = p1.split(".")[0]
-        b1 = cg.bindings(g).get(blk, [])
-        ok1 = p1.endswith(".name") and p1.count(".") == 1 and any(
-            _constructs(repo, cg, g, b, "Block") for b in b1 if b is not None)
+        blk = p1[:-5] if p1.endswith(".name") else p1
+        ok1 = p1.endswith(".name") and _built(blk, "Block")
         # the block that receives the value, and the block handed to serialize(), are that same block
         # stores of the parsed value and serialize() calls, in the parser and its same-class helpers (a helper that
         # drains a work list is traced back to the list its caller filled)
-        scan = [g] + [h for h in class_methods_reachable(repo, g) if h is not g]
+        scan = [g] + [h for h in parser_fns if h is not g]
         tgt_stores, ser = [], []
         for h in scan:
-            callers = [(g.node, c) for c in calls(g.node, into_defs=True) if call_attr(c) == h.name] if h is not g else ()
+            callers = [(k_.node, c) for k_ in scan for c in calls(k_.node, into_defs=True)
+                       if call_attr(c) == h.name and k_ is not h] + [(k_.node, None) for k_ in scan if k_ is not h]
             for st_ in stores(h.node, into_defs=True):
                 if st_.kind == "setitem" and isinstance(st_.target, ast.Subscript) and \
                         _origin_path(h.node, st_.node, st_.target.slice, callers) == p2:
@@ -1764,25 +1951,90 @@ def r6(ctx):
                        "a block boundary / after the line loop, never while the block's remaining lines are still unparsed")
     cg = CallGraph(repo)
     pf = repo.fn("HumanMessageSerializer.from_human_string")
-    pfns = class_methods_reachable(repo, pf)
+    pfns = _parser_fns(repo, cg, pf)
     looks = [(g, node) for g, node, key in _registry_lookups(repo, pfns)]
-    ctx.require(any(g is pf for g, _ in looks), "C11.R6: the subfield serializer lookup is no longer in from_human_string itself")
-    look = next(node for g, node in looks if g is pf)
-    loops = [a for a in ancestors(look) if isinstance(a, (ast.While, ast.For))]
-    ctx.require(bool(loops), "C11.R6: the serializer lookup is not inside a per-line loop")
-    loop = loops[-1]          # outermost loop of the parser: one iteration per (logical) line
-    # arm of the loop body that starts a new block
+    ctx.floor("C11.R6", "subfield serializer lookups in the parser", len(looks), 1)
+
+    # callee functions (within the parser's functions) of a call: self./cls. methods, closures, collaborator methods
+    by_name: Dict[str, List[FuncInfo]] = {}
+    for g in pfns:
+        by_name.setdefault(g.name, []).append(g)
+
+    def callees(g: FuncInfo, c: ast.Call):
+        if isinstance(c.func, ast.Attribute) and isinstance(c.func.value, ast.Name):
+            recv = c.func.value.id
+            if recv in ("self", "cls") or cg.constructed_class(g, recv) is not None:
+                return by_name.get(c.func.attr, [])
+        return []
+
+    def direct(g: FuncInfo, pred) -> List[ast.AST]:
+        return [n for n in walk(g.node, into_defs=True) if pred(g, n)]
+
+    def closure_of(pred) -> Set[str]:
+        """functions that (transitively through parser-internal calls) contain a node satisfying pred"""
+        have = {g.full for g in pfns if direct(g, pred)}
+        grew = True
+        while grew:
+            grew = False
+            for g in pfns:
+                if g.full not in have and any(h.full in have for c in calls(g.node, into_defs=True) for h in callees(g, c)):
+                    have.add(g.full)
+                    grew = True
+        return have
+
+    def is_ser(g, n):
+        return isinstance(n, ast.Call) and call_attr(n) == "serialize" and n.args and isinstance(n.func, ast.Attribute)
+
+    def is_look(g, n):
+        return any(n is node for _, node in looks)
+
+    def is_newblock(g, n):
+        return isinstance(n, ast.Assign) and _constructs(repo, cg, g, n.value, "Block")
+    ser_fns, look_fns, blk_fns = closure_of(is_ser), closure_of(is_look), closure_of(is_newblock)
+    ctx.floor("C11.R6", "serializer.serialize() calls in the parser", sum(len(direct(g, is_ser)) for g in pfns), 1)
+
+    def occurrences(g: FuncInfo, pred, have: Set[str]) -> List[ast.AST]:
+        """nodes of g's own body (closures included) where the thing happens: directly, or by calling into `have`;
+        a direct occurrence inside a closure counts where the closure is called"""
+        out = []
+        nested_defs = {d.name: d for d in walk(g.node, into_defs=True) if isinstance(d, FUNC_TYPES) and d is not g.node}
+        inner = {dn for dn, d in nested_defs.items() if any(pred(g, n) for n in walk(d, into_defs=True))}
+        for n in walk(g.node, into_defs=True):
+            in_nested = any(isinstance(a, FUNC_TYPES) and a is not g.node for a in ancestors(n))
+            if in_nested:
+                continue
+            if pred(g, n):
+                out.append(n)
+            elif isinstance(n, ast.Call):
+                if isinstance(n.func, ast.Name) and n.func.id in inner:
+                    out.append(n)
+                elif any(h.full in have and h is not g for h in callees(g, n)):
+                    out.append(n)
+        return out
+
+    # the line loop: a loop, in one of the parser's functions, whose body reaches the serializer lookup
+    cand = []
+    for g in pfns:
+        for lp in [n for n in walk(g.node, into_defs=False) if isinstance(n, (ast.While, ast.For))]:
+            if any(lp in list(ancestors(o)) for o in occurrences(g, is_look, look_fns)):
+                cand.append((g, lp))
+    ctx.require(bool(cand), "C11.R6: no loop of the parser reaches the subfield serializer lookup")
+    # outermost such loop of the function closest to the entry point
+    lf, loop = cand[0]
+    for g, lp in cand:
+        if g is lf and any(a is lp for a in ancestors(loop)):
+            loop = lp
+    blk_occ = [o for o in occurrences(lf, is_newblock, blk_fns) if any(a is loop for a in ancestors(o))]
+    ctx.require(bool(blk_occ), "C11.R6: the branch of the line loop that starts a new Block was not found")
     blk_arm = None
-    for st_ in stores(loop, into_defs=False):
-        if st_.kind == "assign" and st_.value is not None and _constructs(repo, cg, pf, st_.value, "Block"):
-            cur = st_.node
-            while cur is not loop and cur is not None:
-                p_ = parent(cur)
-                if isinstance(p_, ast.If):
-                    blk_arm = (p_, "body" if any(cur is x for x in p_.body) else "orelse")
-                    break
-                cur = p_
-    ctx.require(blk_arm is not None, "C11.R6: the branch of the line loop that starts a new Block was not found")
+    cur = blk_occ[0]
+    while cur is not loop and cur is not None:
+        p_ = parent(cur)
+        if isinstance(p_, ast.If):
+            blk_arm = (p_, "body" if any(cur is x for x in p_.body) else "orelse")
+            break
+        cur = p_
+    ctx.require(blk_arm is not None, "C11.R6: a new Block is started unconditionally in the line loop")
 
     def in_arm(node, arm) -> bool:
         if_node, which = arm
@@ -1793,48 +2045,21 @@ def r6(ctx):
                 return any(cur is x for x in getattr(if_node, which))
             cur = p_
         return False
-
-    # serialize() calls on the looked-up serializer, and the places where they are *executed*
-    ser = []
-    for g in pfns:
-        for c in find_calls(g.node, "serialize"):
-            if c.args and isinstance(c.func, ast.Attribute):
-                ser.append((g, c))
-    ctx.floor("C11.R6", "serializer.serialize() calls in the parser", len(ser), 1)
-    def lift(g, node, depth=0) -> List[ast.AST]:
-        """Where in from_human_string's own body is `node` (in g) executed: follow closures and helpers to their calls."""
-        ctx.require(depth < 6, "C11.R6: serialize() is nested too deeply in helpers")
-        if g is not pf:
-            cs = [x for x in calls(pf.node, into_defs=True) if call_attr(x) == g.name
-                  and isinstance(x.func, ast.Attribute) and ap(x.func.value) in ("cls", "self")]
-            ctx.require(bool(cs), f"C11.R6: helper {g.qual} containing serialize() is not called from from_human_string")
-            return [s_ for x in cs for s_ in lift(pf, x, depth + 1)]
-        nested = [a for a in ancestors(node) if isinstance(a, FUNC_TYPES) and a is not pf.node]
-        if not nested:
-            return [node]
-        dname = nested[0].name
-        cs = [x for x in calls(pf.node, into_defs=True) if isinstance(x.func, ast.Name) and x.func.id == dname]
-        ctx.require(bool(cs), f"C11.R6: closure {dname} containing serialize() is never called in from_human_string")
-        return [s_ for x in cs for s_ in lift(pf, x, depth + 1)]
-    sites = []
-    for g, c in ser:
-        for s_ in lift(g, c):
-            if not any(s_ is t for t in sites):
-                sites.append(s_)
+    sites = occurrences(lf, is_ser, ser_fns)
+    ctx.require(bool(sites), "C11.R6: serialize() is not reached from the function that holds the line loop")
     n_after = 0
     for site in sites:
         inside = any(a is loop for a in ancestors(site))
         if not inside:
-            # after the loop, on the normal way out of the function
-            if isinstance(parent(enclosing_stmt(site)), FUNC_TYPES) and enclosing_stmt(site).lineno > loop.lineno:
+            st_ = enclosing_stmt(site)
+            if st_ is not None and isinstance(parent(st_), FUNC_TYPES) and st_.lineno > loop.lineno:
                 n_after += 1
             continue
         ok = in_arm(site, blk_arm)
         ctx.ob("C11.R6", f"from_human_string: `{norm(site)}` inside the line loop runs only where a new block starts", ok,
-               ctx.w(pf, site), "serialize() of a packed value runs while later lines of the same block are still unparsed: a "
+               ctx.w(lf, site), "serialize() of a packed value runs while later lines of the same block are still unparsed: a "
                "serializer that reads a sibling variable (e.g. ObjectUpdate State needs PCode) sees an incomplete block")
-    cfg = CFG(pf.node)
-    # every normal exit after the loop passes a serialize site
+    cfg = CFG(lf.node)
     after_sites = [n for site in sites if not any(a is loop for a in ancestors(site)) for n in cfg.stmt_nodes_containing(site)]
     loop_nodes = cfg.nodes_for(loop)
     escapes = bool(loop_nodes) and cfg.exit in cfg.reachable(loop_nodes, avoid=lambda n: n in after_sites or
@@ -1842,7 +2067,7 @@ def r6(ctx):
                                                             any(a is loop for a in ancestors(n.ast))), exc=False)
     inline_only = all(any(a is loop for a in ancestors(s_)) and not in_arm(s_, blk_arm) for s_ in sites)
     ctx.ob("C11.R6", "from_human_string: packed values still pending after the last line are serialized before returning",
-           inline_only or (n_after >= 1 and not escapes), pf.where,
+           inline_only or (n_after >= 1 and not escapes), lf.where,
            "no serialize() site on the way from the end of the line loop to the return: the last block's packed values "
            "would stay unserialized")
 
@@ -1860,16 +2085,36 @@ def r7(ctx):
     pf = repo.fn("HumanMessageSerializer.from_human_string")
     # serializer classes the parser resolves first: isinstance(<queued serializer>, (A, B)) in a sort key / filter
     standalone: Set[str] = set()
-    for c in calls(pf.node, into_defs=True):
-        if isinstance(c.func, ast.Name) and c.func.id == "isinstance" and len(c.args) == 2 and \
-                any(isinstance(a, (ast.Lambda,)) or (isinstance(a, ast.Call) and call_attr(a) in ("sort", "sorted", "filter"))
-                    for a in ancestors(c)):
-            t = c.args[1]
-            if isinstance(t, ast.Name):
-                b = [st.value for st in stores(pf.node, into_defs=True) if st.path == t.id and st.value is not None]
-                t = b[-1] if b else t
-            for e in (t.elts if isinstance(t, ast.Tuple) else [t]):
-                standalone.add((ap(e) or "").split(".")[-1])
+    cg_ = CallGraph(repo)
+    for g_ in _parser_fns(repo, cg_, pf):
+        for c in calls(g_.node, into_defs=True):
+            if isinstance(c.func, ast.Name) and c.func.id == "isinstance" and len(c.args) == 2 and \
+                    any(isinstance(a, (ast.Lambda,)) or (isinstance(a, ast.Call) and call_attr(a) in ("sort", "sorted", "filter"))
+                        for a in ancestors(c)):
+                t = c.args[1]
+                if isinstance(t, ast.Name):
+                    b = [st.value for st in stores(g_.node, into_defs=True) if st.path == t.id and st.value is not None]
+                    t = b[-1] if b else t
+                for e in (t.elts if isinstance(t, ast.Tuple) else [t]):
+                    standalone.add((ap(e) or "").split(".")[-1])
+    # the order established by the sort must survive the drain: forward iteration / pop(0) / popleft, not pop() from the end
+    for g_ in _parser_fns(repo, cg_, pf):
+        for c in calls(g_.node, into_defs=True):
+            if isinstance(c.func, ast.Attribute) and c.func.attr == "sort" and any(
+                    isinstance(x, ast.Call) and ap(x.func) == "isinstance" for x in ast.walk(c)):
+                lst = ap(c.func.value)
+                top_g = g_.node
+                bad = []
+                for n_ in walk(top_g, into_defs=True):
+                    if isinstance(n_, ast.For) and isinstance(n_.iter, ast.Call) and ap(n_.iter.func) == "reversed" and \
+                            n_.iter.args and ap(n_.iter.args[0]) == lst:
+                        bad.append(n_.iter)
+                    if isinstance(n_, ast.Call) and isinstance(n_.func, ast.Attribute) and n_.func.attr == "pop" and \
+                            ap(n_.func.value) == lst and (not n_.args or (isinstance(n_.args[0], ast.UnaryOp))):
+                        bad.append(n_)
+                ctx.ob("C11.R7", f"{g_.qual}: the work list {lst} is drained in the order the sort established", not bad,
+                       ctx.w(g_, c), "" if not bad else f"`{norm(bad[0])}` takes entries from the end: the serializers sorted "
+                       f"to the front (the ones others switch on) are resolved last")
     kind_cls = {"enum": "IntEnumSubfieldSerializer", "flag": "IntFlagSubfieldSerializer"}
     rc = RenamedCtx(ctx, {"C09.R1": "C11.R7", "C09": "C11.R7"})
     regs = c09.registrations(rc)
@@ -2006,7 +2251,63 @@ def r9(ctx):
     ctx.floor("C11.R9", "builtin-container subclasses among the value classes", n, 2)
 
 
+def r10(ctx):
+    """Optional sections: where the reader's "absent" early-out (guarded by a configuration attribute such as
+    self._optional) returns before consuming anything, the writer's early-out under the same attribute must return
+    before writing anything - bytes written for an absent value are read back as the next section."""
+    repo = ctx.repo
+    ctx.rule("C11.R10", "optional-section early-outs are symmetric: a serialize() early return guarded by the attribute that "
+                        "guards deserialize()'s read-nothing early return is reached before any write")
+    n = 0
+    mods = {"hippolyzer/lib/base/templates.py", "hippolyzer/lib/base/serialization.py"}
+    for lst in repo.classes.values():
+        for ci in lst:
+            if ci.module.rel not in mods or "serialize" not in ci.methods or "deserialize" not in ci.methods:
+                continue
+            sm, dm = ci.methods["serialize"], ci.methods["deserialize"]
+            sp = [a.arg for a in sm.node.args.args]
+            dp = [a.arg for a in dm.node.args.args]
+            wname = next((a for a in sp if "writer" in a), None)
+            rname = next((a for a in dp if "reader" in a), None)
+            if wname is None or rname is None:
+                continue
+
+            def early_outs(fn, stream):
+                """(return stmt, self attributes in its dominating conditions) for returns not preceded by stream use"""
+                out = []
+                cfg = CFG(fn.node)
+                uses = set()
+                for c in calls(fn.node, into_defs=False):
+                    if any(isinstance(x, ast.Name) and x.id == stream for x in ast.walk(c)) and \
+                            (ap(c.func) or "").split(".")[0] == stream or any(ap(a_) == stream for a_ in c.args):
+                        uses |= set(cfg.stmt_nodes_containing(c))
+                for r_ in [x for x in walk(fn.node) if isinstance(x, ast.Return)]:
+                    attrs = {ap(x) for e, pol in facts(r_, fn.node) for x in ast.walk(e)
+                             if isinstance(x, ast.Attribute) and (ap(x) or "").startswith("self.")}
+                    rn = set(cfg.nodes_for(r_))
+                    reached_after_use = bool(uses) and bool(cfg.reachable(uses, exc=False) & rn)
+                    out.append((r_, attrs, reached_after_use))
+                return out
+            try:
+                d_outs = early_outs(dm, rname)
+                s_outs = early_outs(sm, wname)
+            except AnalysisError:
+                continue
+            d_attrs = set().union(*[a for r_, a, after in d_outs if not after and a]) if d_outs else set()
+            for r_, attrs, after in s_outs:
+                common = attrs & d_attrs
+                if not common or (r_.value is not None and not (isinstance(r_.value, ast.Constant) and r_.value.value is None)):
+                    continue
+                n += 1
+                ctx.ob("C11.R10", f"{ci.name}.serialize: early-out under {sorted(common)} returns before anything is written",
+                       not after, ctx.w(sm, r_),
+                       f"{ci.name}.deserialize returns under {sorted(common)} without reading a byte, but this early-out can be "
+                       f"reached after a write to `{wname}`: the bytes written for an absent value are read as the next section")
+    ctx.floor("C11.R10", "symmetric optional early-outs", n, 1)
+
+
 def run(ctx):
+    r10(ctx)
     r9(ctx)
     r8(ctx)
     r7(ctx)
